@@ -96,7 +96,112 @@ def _pick_change(rng, field, current):
     return rng.choice(vals)
 
 
+GROUP_OPEN, GROUP_CLOSE = '{[<(', '}]>)'
+MATH_PAIRS = [['$', '$'], ['@', '@'], ['\\(', '\\)'], ['@@', '@@'], ['@@@', '@@@'], ['\\[', '\\]'], ['$$', '$$'],
+              ['<', '>'], ['\\(', '$'], ['$$$', '$$$']]
+
+
+def rich_list(rng, field):
+    """Delimiter lists from a space of thousands (the ordinary domain has seven or eight per field)."""
+    if field == 'latex_group_delimiters':
+        n = rng.randint(1, 3)
+        out = []
+        for _ in range(n):
+            o = rng.choice(GROUP_OPEN)
+            out.append([o, rng.choice(GROUP_CLOSE) if rng.random() < 0.3 else GROUP_CLOSE[GROUP_OPEN.index(o)]])
+        return out
+    n = rng.randint(0, 3)
+    return [list(x) for x in rng.sample(MATH_PAIRS, n)]
+
+
+def _long_program(rng, tier, run):
+    """Volume: chains tens to hundreds of derivations deep, dozens of siblings of one parent with
+    pairwise different delimiter lists (and then the early ones again), longer inputs."""
+    big = tier == 'thorough'
+    shape = rng.choice(['chain', 'chain', 'fan', 'fan', 'tree'])
+    n = rng.choice([40, 70, 110]) if not big else rng.choice([60, 120, 250, 400])
+    f = {}
+    if rng.random() < 0.5:
+        f['latex_context'] = rng.choice(['default', 'small'])
+    if rng.random() < 0.4:
+        f['in_math_mode'] = True
+        f['math_mode_delimiter'] = rng.choice(DOM['math_mode_delimiter'])
+    for k in rng.sample(sorted(DOM), rng.randint(0, 2)):
+        f.setdefault(k, rng.choice(DOM[k]))
+    ops = [['root', f]]
+    if rng.random() < 0.2:
+        ops[0][1]['@subclass'] = True
+        ops[0][1]['sim_flag'] = rng.randrange(1, 3)
+    other_fields = [k for k in DOM if k not in MATH_CONE and k != 'latex_context']
+
+    def step_change():
+        y = rng.random()
+        if y < 0.22:
+            return {'in_math_mode': True, 'math_mode_delimiter': rng.choice(DOM['math_mode_delimiter'])}
+        if y < 0.38:
+            return {'in_math_mode': rng.random() < 0.5}
+        if y < 0.46:
+            return {'math_mode_delimiter': rng.choice(DOM['math_mode_delimiter'])}
+        if y < 0.70:
+            k = rng.choice(DELIM_LISTS)
+            return {k: rich_list(rng, k) if rng.random() < 0.8 else rng.choice(DOM[k])}
+        if y < 0.88:
+            k = rng.choice(other_fields)
+            return {k: rng.choice(DOM[k])}
+        if y < 0.94:
+            return {}
+        return {'@repeat': rng.sample(sorted(DOM), rng.randint(1, 2))}
+
+    def emit(parent, ch):
+        z = rng.random()
+        if z < 0.06:
+            ops.append(['derive_delta', parent, 'enter_math', rng.choice(DOM['math_mode_delimiter']), {}])
+        elif z < 0.12:
+            ops.append(['derive_delta', parent, 'leave_math', None, {}])
+        else:
+            ops.append(['derive', parent, ch])
+        if rng.random() < 0.2:
+            ops[-1].append('@lazy')
+    if shape == 'chain':
+        for _ in range(n):
+            emit(-1, step_change())
+    elif shape == 'fan':
+        pre = rng.randint(0, 4)
+        for _ in range(pre):
+            emit(-1, step_change())
+        hub = pre                 # index of the state everything is derived from
+        made = []
+        fields = [rng.choice(DELIM_LISTS)] if rng.random() < 0.4 else list(DELIM_LISTS)
+        n_new = max(20, int(n * 0.7))
+        for _ in range(n_new):
+            k = rng.choice(fields)
+            ch = {k: rich_list(rng, k)}
+            if rng.random() < 0.15:
+                ch['in_math_mode'] = rng.random() < 0.5
+            made.append(ch)
+            ops.append(['derive', hub, ch])
+        for _ in range(n - n_new):
+            # the early ones again (whatever was remembered about them may be gone by now)
+            ops.append(['derive', hub, rng.choice(made[:max(3, len(made) // 3)])])
+            if rng.random() < 0.3:
+                ops.append(['derive', -1, step_change()])
+    else:
+        for _ in range(n):
+            x = rng.random()
+            parent = -1 if x < 0.5 else (0 if x < 0.6 else rng.randrange(1000))
+            emit(parent, step_change())
+    alpha = ALPHABET + ['@@@', '$$$']
+    probes = [''.join(rng.choice(alpha) for _ in range(rng.randint(2, 8))) for _ in range(4)]
+    probes += [''.join(rng.choice(alpha) for _ in range(rng.randint(20, 60))) for _ in range(2)]
+    parse_probes = [''.join(rng.choice(PARSE_SNIPPETS) for _ in range(rng.randint(2, 5))) for _ in range(2)]
+    parse_probes.append(''.join(rng.choice(PARSE_SNIPPETS) for _ in range(rng.randint(12, 25))))
+    return {'batch': 'long-' + shape, 'light': True, 'max_live': n + 12, 'ops': ops, 'probes': probes,
+            'parse_probes': parse_probes}
+
+
 def generate(rng, tier, run):
+    if run % 50 == 49:
+        return _long_program(rng, tier, run)
     batch = 'plain' if run % 10 < 8 else 'rejected'
     if tier == 'thorough' and rng.random() < 0.3:
         n_ops = rng.randint(12, 30)
@@ -424,8 +529,17 @@ def execute(program):
     violation = None
     base_strings = FIXED_PROBES + list(program['probes'])
     parse_strings = PARSE_PROBES + list(program.get('parse_probes', []))
+    light = bool(program.get('light'))
+    max_live = int(program.get('max_live') or MAX_LIVE)
 
-    def compare_with_fresh(ps, opi, idx, strings):
+    def probe_sets(opi):
+        """Which strings a new state is compared on: all of them, or (light mode, for histories of
+        hundreds of states) a rotating slice -- every string still meets every few states."""
+        if not light:
+            return base_strings, parse_strings
+        return base_strings[opi % 5::5], parse_strings[opi % 7::7]
+
+    def compare_with_fresh(ps, opi, idx, strings, parse_strings=parse_strings):
         fields = ps.get_fields()
         try:
             fresh = type(ps)(**fields)
@@ -448,9 +562,18 @@ def execute(program):
                                 observed=b_d['parse'][key], expected=b_f['parse'][key])
         return b_d
 
-    def check_others_unchanged(opi, before_fields, skip=None):
+    def check_others_unchanged(opi, before_fields, skip=None, around=None):
+        todo = None
+        if light and around is not None and len(live) > 24:
+            # the chain of ancestors, the most recent states and a rotating sample of the rest
+            todo = set(range(len(live) - 10, len(live)))
+            a = around
+            while a is not None:
+                todo.add(a)
+                a = live[a].get('parent')
+            todo.update(range(opi % 7, len(live), 7))
         for j, st in enumerate(live):
-            if j == skip or j >= len(before_fields):
+            if j == skip or j >= len(before_fields) or (todo is not None and j not in todo):
                 continue
             now = plain_fields(st['ps'])
             if now != before_fields[j]:
@@ -464,10 +587,10 @@ def execute(program):
         st = live[j]
         if st['behaviour'] is None:
             # first use of a state that was left unused: full comparison with a fresh one
-            st['behaviour'] = compare_with_fresh(st['ps'], opi, j, st['strings'])
+            st['behaviour'] = compare_with_fresh(st['ps'], opi, j, st['strings'], st['pstrings'])
             return
         strings = st['strings']
-        pstrings = parse_strings
+        pstrings = st['pstrings']
         if part is not None:
             k, n = part
             strings = strings[k % n::n]
@@ -485,7 +608,21 @@ def execute(program):
         for opi, op in enumerate(program['ops']):
             kind = op[0]
             CUR['opi'] = opi
-            before = [plain_fields(st['ps']) for st in live]
+            if light and len(live) > 24 and kind in ('derive', 'derive_delta'):
+                # hundreds of live states: read the fields of those that will be looked at again
+                # (check_others_unchanged uses the same selection); the others keep their last reading
+                jj = op[1] % len(live)
+                sel = set(range(len(live) - 10, len(live))) | set(range(opi % 7, len(live), 7))
+                a = jj
+                while a is not None:
+                    sel.add(a)
+                    a = live[a].get('parent')
+                before = [plain_fields(st['ps']) if i in sel else st.get('fields_seen') for i, st in enumerate(live)]
+            else:
+                before = [plain_fields(st['ps']) for st in live]
+            for i, st in enumerate(live):
+                if before[i] is not None:
+                    st['fields_seen'] = before[i]
             outcome = 'ok'
             if kind == 'base_use':
                 # somebody else in the process uses plain ParsingState objects
@@ -494,7 +631,7 @@ def execute(program):
                 token_dump(q, 'a$b%c')
                 stats.inc('op:base_use')
             elif kind == 'root':
-                if len(live) >= MAX_LIVE:
+                if len(live) >= max_live:
                     outcome = 'skipped'
                 else:
                     fields = {k: decode(k, v) for k, v in op[1].items() if not k.startswith('@')}
@@ -505,7 +642,7 @@ def execute(program):
                         ps = ParsingState(**fields)
                     b = compare_with_fresh(ps, opi, len(live), base_strings)
                     live.append({'ps': ps, 'depth': 0, 'pattern': [], 'behaviour': b,
-                                 'strings': base_strings})
+                                 'strings': base_strings, 'pstrings': parse_strings, 'parent': None})
                     stats.inc('op:root')
             elif not live:
                 outcome = 'skipped'
@@ -516,7 +653,7 @@ def execute(program):
             elif kind in ('derive', 'derive_delta'):
                 j = op[1] % len(live)
                 parent = live[j]
-                if len(live) >= MAX_LIVE:
+                if len(live) >= max_live:
                     outcome = 'skipped'
                 else:
                     ch = dict(op[2] if kind == 'derive' else op[4])
@@ -592,19 +729,21 @@ def execute(program):
                         k = [k for k in want if got.get(k) != want[k]][0]
                         raise Violation('derived-fields-as-requested', op_index=opi, state=j, field=k,
                                         observed=got.get(k), expected=want[k])
-                    check_others_unchanged(opi, before)
+                    check_others_unchanged(opi, before, around=j)
                     lazy = op[-1] == '@lazy'
+                    my_strings, my_pstrings = probe_sets(opi)
                     if lazy:
                         # not tokenized or parsed with before something is derived from it
                         # (tables that are filled in on first use are still empty then)
                         b = None
                         stats.inc('probe:state-left-unused-until-later')
                     else:
-                        b = compare_with_fresh(child, opi, len(live), base_strings)
+                        b = compare_with_fresh(child, opi, len(live), my_strings, my_pstrings)
                     # one token reader, asked with the parent and then with the child at the same place
                     if not lazy:
                         fresh_child = type(child)(**child.get_fields())
-                        for sp in SHARED_READER_PROBES + list(program['probes'][:2]):
+                        srp = SHARED_READER_PROBES + list(program['probes'][:2])
+                        for sp in (srp[opi % 4::4] if light else srp):
                             a = shared_reader_dump(parent['ps'], child, sp)
                             bb = shared_reader_dump(parent['ps'], fresh_child, sp)
                             stats.inc('shared-reader-comparisons')
@@ -638,9 +777,13 @@ def execute(program):
                     if not effective:
                         stats.inc('probe:derive-without-effective-change')
                     pattern = parent['pattern'] + [step]
-                    live.append({'ps': child, 'depth': parent['depth'] + 1, 'pattern': pattern,
-                                 'behaviour': b, 'strings': base_strings})
-                    stats.inc('probe:chain-depth-%d' % min(parent['depth'] + 1, 8))
+                    live.append({'ps': child, 'depth': parent['depth'] + 1, 'pattern': pattern[-12:] if light else pattern,
+                                 'behaviour': b, 'strings': my_strings, 'pstrings': my_pstrings, 'parent': j})
+                    dd = parent['depth'] + 1
+                    stats.inc('probe:chain-depth-%s' % (min(dd, 8) if dd < 16 else ('16+' if dd < 33 else ('33+' if dd < 100 else '100+'))))
+                    parent['n_children'] = parent.get('n_children', 0) + 1
+                    if parent['n_children'] in (17, 33, 65):
+                        stats.inc('probe:siblings-of-one-parent-%d' % parent['n_children'])
                     sigs.add(core.short_digest([got, pattern]))
             elif kind == 'derive_bad':
                 j = op[1] % len(live)
@@ -683,7 +826,7 @@ def execute(program):
             trace.append([kind, outcome, core.short_digest([plain_fields(st['ps']) for st in live])])
         # final pass: every live state still behaves as when it was created
         for j in range(len(live)):
-            recheck_behaviour(len(program['ops']) - 1, j, (j, 2))
+            recheck_behaviour(len(program['ops']) - 1, j, (j, 2) if not light or len(live[j]['strings']) < 12 else (j, 6))
             stats.inc('final-behaviour-rechecks')
     except Violation as v:
         oi = v.info.get('op_index', 0)
